@@ -54,10 +54,13 @@ const CANARY: u32 = 0x5AA5_C33C;
 pub struct Tk {
     id: u32,
     canary: u32,
+    /// how often THIS value has been the `&self` of Clone::clone (travels with the value when it is moved; a
+    /// bitwise copy that is cloned instead of the original makes the two counts part ways)
+    clones: std::cell::Cell<u32>,
 }
 impl Tk {
     pub fn with_id(id: i64) -> Tk {
-        Tk { id: id as u32, canary: CANARY ^ (id as u32) }
+        Tk { id: id as u32, canary: CANARY ^ (id as u32), clones: std::cell::Cell::new(0) }
     }
 }
 impl Elem for Tk {
@@ -91,8 +94,10 @@ impl Clone for Tk {
             ev!("\"ev\":\"clone_panic\",\"src\":{}", src);
             injected_panic();
         }
+        let nth = self.clones.get();
+        self.clones.set(nth + 1);
         let n = Tk::fresh();
-        ev!("\"ev\":\"clone\",\"src\":{},\"new\":{}", src, n.id());
+        ev!("\"ev\":\"clone\",\"src\":{},\"new\":{},\"nth\":{}", src, n.id(), nth);
         n
     }
 }
@@ -210,7 +215,7 @@ impl Elem for P1 {
 impl Clone for P1 {
     fn clone(&self) -> P1 {
         let n = P1::fresh();
-        ev!("\"ev\":\"clone\",\"src\":{},\"new\":{}", self.0, n.0);
+        ev!("\"ev\":\"clone\",\"src\":{},\"new\":{},\"nth\":-1", self.0, n.0);
         n
     }
 }
@@ -229,7 +234,7 @@ pub struct Pl(pub u64);
 impl Clone for Pl {
     fn clone(&self) -> Pl {
         let n = Pl::fresh();
-        ev!("\"ev\":\"clone\",\"src\":{},\"new\":{}", self.0, n.0);
+        ev!("\"ev\":\"clone\",\"src\":{},\"new\":{},\"nth\":-1", self.0, n.0);
         n
     }
 }
@@ -265,7 +270,7 @@ impl Elem for PlZ {
 }
 impl Clone for PlZ {
     fn clone(&self) -> PlZ {
-        ev!("\"ev\":\"clone\",\"src\":0,\"new\":0");
+        ev!("\"ev\":\"clone\",\"src\":0,\"new\":0,\"nth\":-1");
         PlZ
     }
 }
@@ -295,7 +300,7 @@ impl Drop for TkZ {
 }
 impl Clone for TkZ {
     fn clone(&self) -> TkZ {
-        ev!("\"ev\":\"clone\",\"src\":0,\"new\":0");
+        ev!("\"ev\":\"clone\",\"src\":0,\"new\":0,\"nth\":-1");
         TkZ
     }
 }
